@@ -64,8 +64,13 @@ ParseRange(v) ==
       specs == [i \in 1..Len(es) |-> SpecOf(es[i])] IN
   IF es = <<>> \/ \E i \in 1..Len(specs) : specs[i] = Bad THEN Ignore ELSE [ok |-> TRUE, specs |-> specs]
 
-\* every written position is representable as a non-negative signed 64-bit number
-FitsAll(specs) == \A i \in 1..Len(specs) : Leq(specs[i].a, Max63) /\ Leq(specs[i].b, Max63)
+\* A server may always ignore a Range header; the statement obliges Squid to honour a syntactically valid one only as far as
+\* its numbers are workable: every written position, and last-byte-pos + 1 (the end of the half-open interval), is
+\* representable as a non-negative signed 64-bit number.  (A header it does honour must still yield exactly the requested bytes.)
+FitsAll(specs) == \A i \in 1..Len(specs) :
+                     /\ Leq(specs[i].a, Max63)
+                     /\ Leq(specs[i].b, Max63)
+                     /\ ((specs[i].kind = "range") => (Cmp(specs[i].b, Max63) < 0))
 
 \* ---- set semantics on Wide values ----
 Lt(a, b) == Cmp(a, b) < 0
